@@ -652,6 +652,8 @@ def run(ctx):
     # the joint model is assembled from the sensor models' layout (C14's contract), re-established here on a few masks
     from props import C14 as _C14
     ctx.guard(_C14.layout_subset, ctx, py, "C11")
+    from props import helpers as _helpers_l
+    ctx.guard(_helpers_l.lean_induction, ctx, "C11", ['Pvx.loop_rule'])
     # frame of the modules under contract (no state kept between calls, arguments left alone): same analysis as C19
     from props import C19 as _C19
     ctx.guard(_C19.frame_obligations, ctx, py, "C11", {'kalman', 'util', 'filters'})
